@@ -704,7 +704,7 @@ impl PoolableConnection<B> for HConn {
     fn is_open(&self) -> bool {
         let w = self.w.lock().unwrap();
         let c = &w.conns[self.id];
-        c.open && (c.ready || c.shareable)
+        c.open && (c.ready || c.shareable || !w.cfg.open_is_ready)
     }
     fn can_share(&self) -> bool {
         self.w.lock().unwrap().conns[self.id].shareable
@@ -925,6 +925,19 @@ pub struct PoolCfg {
     pub cont: bool,
     /// request timeout through hyperdriver's Timeout layer (virtual ms)
     pub req_timeout_ms: Option<u64>,
+    /// what the model connection's `is_open()` means: true = "open and ready for a request" (as
+    /// the crate's own HttpConnection), false = "not closed" (the trait only says "is open"; the
+    /// pool must then rely on poll_ready before handing a released connection out again)
+    #[serde(default = "yes")]
+    pub open_is_ready: bool,
+    /// caller-supplied Host header: 0 none; 1 every request carries `Host: shared.example`;
+    /// 2 every second request does (virtual hosting / proxying: the header names a host that differs
+    /// from the URI's; the pool must still key connections by the URI)
+    #[serde(default)]
+    pub caller_host: u8,
+}
+fn yes() -> bool {
+    true
 }
 
 #[derive(Clone, Debug, Serialize, Deserialize, PartialEq)]
@@ -1110,12 +1123,15 @@ impl Sim {
             });
             w.log(|| format!("issue req#{id} {} h2={h2} must_not_dial={must_not_dial:?}", origin_uri(origin)));
         }
-        let req = http::Request::builder()
+        let mut req = http::Request::builder()
             .uri(uri)
             .version(if h2 { http::Version::HTTP_2 } else { http::Version::HTTP_11 })
             .header("x-req", id.to_string())
             .body(Empty::<Bytes>::new())
             .unwrap();
+        if self.cfg.caller_host == 1 || (self.cfg.caller_host == 2 && id % 2 == 1) {
+            req.headers_mut().insert(http::header::HOST, http::HeaderValue::from_static("shared.example"));
+        }
         self.set_actor(Actor::Issue(id));
         let fut: Fut = match self.cfg.req_timeout_ms.filter(|_| !probe) {
             Some(ms) => {
@@ -2180,11 +2196,13 @@ pub fn case_strategy(
 }
 
 pub fn cfg_plain_strategy() -> impl Strategy<Value = PoolCfg> {
-    (prop_oneof![Just(None), Just(Some(3_600_000u64))], any::<bool>()).prop_map(|(t, cont)| PoolCfg {
+    (prop_oneof![Just(None), Just(Some(3_600_000u64))], any::<bool>(), prop_oneof![2 => Just(true), 1 => Just(false)]).prop_map(|(t, cont, open_is_ready)| PoolCfg {
         idle_timeout_ms: t,
         max_idle: 32,
         cont,
         req_timeout_ms: None,
+        open_is_ready,
+        caller_host: 0,
     })
 }
 
@@ -2194,6 +2212,8 @@ pub fn cfg_timeout_strategy() -> impl Strategy<Value = PoolCfg> {
         max_idle: m,
         cont,
         req_timeout_ms: Some(t),
+        open_is_ready: true,
+        caller_host: 0,
     })
 }
 
@@ -2203,6 +2223,8 @@ pub fn cfg_expiry_strategy() -> impl Strategy<Value = PoolCfg> {
         max_idle: 32,
         cont,
         req_timeout_ms: None,
+        open_is_ready: true,
+        caller_host: 0,
     })
 }
 
@@ -2249,8 +2271,39 @@ pub fn expiry_scenario_strategy() -> impl Strategy<Value = PoolCase> {
             for j in 0..probes {
                 ops.push(Op::Poll(((j * 65536) / probes) as u16 + 1));
             }
-            PoolCase { cfg: PoolCfg { idle_timeout_ms: timeout, max_idle: 32, cont, req_timeout_ms: None }, ops }
+            PoolCase { cfg: PoolCfg { idle_timeout_ms: timeout, max_idle: 32, cont, req_timeout_ms: None, open_is_ready: true, caller_host: 0 }, ops }
         })
+}
+
+/// Idle timeouts of a whole number of seconds (the usual configuration: 1 s, 90 s ...): one or two
+/// connections go idle, the history sleeps 1.15 s in real time, then requests are issued.
+pub fn expiry_whole_second_strategy() -> impl Strategy<Value = PoolCase> {
+    (1usize..3, prop_oneof![3 => Just(Some(1000u64)), 1 => Just(Some(2000u64))], 1usize..3, any::<bool>(), any::<bool>()).prop_map(|(k, timeout, probes, cont, open_is_ready)| {
+        let mut ops = vec![];
+        for _ in 0..k {
+            ops.push(Op::Hold { origin: 0, h2: false });
+        }
+        for i in 0..k {
+            ops.push(Op::Release(((i * 65536) / k) as u16 + 1));
+        }
+        for _ in 0..2 {
+            for j in 0..k {
+                ops.push(Op::Poll(((j * 65536) / k) as u16 + 1));
+            }
+            for j in 0..k {
+                ops.push(Op::ConnReady(((j * 65536) / k) as u16 + 1));
+            }
+            ops.push(Op::Bg);
+        }
+        ops.push(Op::Sleep(1150));
+        for _ in 0..probes {
+            ops.push(Op::Issue { origin: 0, h2: false });
+        }
+        for j in 0..probes {
+            ops.push(Op::Poll(((j * 65536) / probes) as u16 + 1));
+        }
+        PoolCase { cfg: PoolCfg { idle_timeout_ms: timeout, max_idle: 32, cont, req_timeout_ms: None, open_is_ready, caller_host: 0 }, ops }
+    })
 }
 
 /// Histories over hundreds of distinct origins: a sweep leaves one pooled connection per origin, then
@@ -2275,7 +2328,7 @@ pub fn many_origins_strategy(max_ops: usize) -> impl Strategy<Value = PoolCase> 
     )
         .prop_map(|(n, mut ops, cont)| {
             ops.insert(0, Op::Sweep { n });
-            PoolCase { cfg: PoolCfg { idle_timeout_ms: None, max_idle: 32, cont, req_timeout_ms: None }, ops }
+            PoolCase { cfg: PoolCfg { idle_timeout_ms: None, max_idle: 32, cont, req_timeout_ms: None, open_is_ready: true, caller_host: 0 }, ops }
         })
 }
 
@@ -2304,6 +2357,7 @@ pub fn near_origins_strategy(wt: Weights, max_ops: usize) -> impl Strategy<Value
                         other => other,
                     })
                     .collect();
+                let cfg = PoolCfg { caller_host: (picks[0] % 3) as u8, ..cfg };
                 PoolCase { cfg, ops }
             })
     })
@@ -2314,8 +2368,9 @@ pub fn cfg_any_strategy() -> impl Strategy<Value = PoolCfg> {
         prop_oneof![Just(None), Just(Some(0u64)), Just(Some(3_600_000u64))],
         prop_oneof![Just(0usize), Just(1), Just(2), Just(3), Just(32)],
         any::<bool>(),
+        prop_oneof![2 => Just(true), 1 => Just(false)],
     )
-        .prop_map(|(t, m, cont)| PoolCfg { idle_timeout_ms: t, max_idle: m, cont, req_timeout_ms: None })
+        .prop_map(|(t, m, cont, open_is_ready)| PoolCfg { idle_timeout_ms: t, max_idle: m, cont, req_timeout_ms: None, open_is_ready, caller_host: 0 })
 }
 
 // ------------------------------------------------------------------------------------------------
